@@ -107,7 +107,19 @@ func (c *canon) walk(v reflect.Value, depth int) {
 			c.b.WriteString("[]nil")
 			return
 		}
-		fmt.Fprintf(&c.b, "[%d:", v.Len())
+		// length, capacity and the identity of the backing array are part of the state: what a later
+		// append or in-place edit does to OTHER slices depends on them
+		if v.Cap() > 0 {
+			p := unsafe.Pointer(v.Pointer())
+			id, ok := c.ids[p]
+			if !ok {
+				id = len(c.ids)
+				c.ids[p] = id
+			}
+			fmt.Fprintf(&c.b, "[%d/%d@%d:", v.Len(), v.Cap(), id)
+		} else {
+			fmt.Fprintf(&c.b, "[%d/0:", v.Len())
+		}
 		for i := 0; i < v.Len(); i++ {
 			if i > 0 {
 				c.b.WriteString(",")
